@@ -26,6 +26,7 @@ import (
 // C19 — independent sessions served concurrently: race detector + transcript equality + canaries
 
 type c19session struct {
+	a     *app.App
 	id    int
 	cfg   app.Config
 	hist  []string
@@ -230,7 +231,22 @@ func runC19(c *vk.Ctx) {
 					h[x] = "#12" // goes through the registered validator
 				}
 			}
-			sessions[j] = &c19session{id: j, cfg: cfg, hist: h, drv: drv}
+			sessions[j] = &c19session{a: a, id: j, cfg: cfg, hist: h, drv: drv}
+		}
+		// every fourth round serves two different applications at the same time: process-wide state that one
+		// application's session leaves behind shows in the other's pages even where no access races
+		var a2 *app.App
+		if i%4 == 3 {
+			r2 := c.RNG(key + "/app2")
+			a2 = app.Generate(r2, p)
+			for j := 1; j < len(sessions); j += 2 {
+				s := sessions[j]
+				s.a = a2
+				s.cfg = genConfig(r2, a2, s.cfg.SessionId)
+				s.cfg.Debug = i%3 == 2
+				s.hist = a2.History(r2, r2.Range(3, 14))
+			}
+			c.Count("rounds_with_two_applications", 1)
 		}
 		// a further input format is registered before the round, while nothing is being served (documented usage:
 		// engine.AddValidInput may be called more than once); the sessions of the round use it right away
@@ -267,7 +283,7 @@ func runC19(c *vk.Ctx) {
 			go func(j int) {
 				defer wg.Done()
 				<-start
-				got[j] = c19Serve(a, sessions[j], drv, shared, rngs[j], true)
+				got[j] = c19Serve(sessions[j].a, sessions[j], drv, shared, rngs[j], true)
 			}(j)
 		}
 		close(start)
@@ -278,7 +294,7 @@ func runC19(c *vk.Ctx) {
 		shared2 := &c19shared{srv: pgfake.NewServer()}
 		shared2.dir, _ = os.MkdirTemp("", "vfs19-")
 		for j := range sessions {
-			want := c19Serve(a, sessions[j], drv, shared2, r.Fork(), false)
+			want := c19Serve(sessions[j].a, sessions[j], drv, shared2, r.Fork(), false)
 			if strings.Join(want, "\n") != strings.Join(got[j], "\n") {
 				step := 0
 				for step < len(want) && step < len(got[j]) && want[step] == got[j][step] {
@@ -292,13 +308,18 @@ func runC19(c *vk.Ctx) {
 					g = got[j][step]
 				}
 				c.Violate("transcript-differs:"+drv, fmt.Sprintf("round %d session %d step %d: alone %s | concurrent %s", i, j, step, w, g), key,
-					map[string]interface{}{"driver": drv, "sessions": k, "app": a.Describe(), "history": sessions[j].hist, "config": sessions[j].cfg})
+					map[string]interface{}{"driver": drv, "sessions": k, "app": sessions[j].a.Describe(), "history": sessions[j].hist, "config": sessions[j].cfg})
 				break
 			}
 		}
 		os.RemoveAll(shared2.dir)
 		if err := a.CheckCanaries(); err != nil {
 			c.Violate("shared-data-modified", err.Error(), key, map[string]interface{}{"driver": drv, "app": a.Describe()})
+		}
+		if a2 != nil {
+			if err := a2.CheckCanaries(); err != nil {
+				c.Violate("shared-data-modified", err.Error(), key, map[string]interface{}{"driver": drv, "app": a2.Describe()})
+			}
 		}
 		var sb strings.Builder
 		for _, t := range got {
